@@ -168,7 +168,8 @@ def loadInit (conv : Conv) (pkgs : Str → Pkg) (schema : Schema) (specs : List 
   specs.mapM addOption >>= fun overrides =>
     loadBag conv schema overrides >>= fun bag =>
       pure { ctx := { schema := schema, privateSchema := false, handlers := [],
-                      stack := [newMatcher schema.top Option.none bag], pkgs := pkgs, conv := conv },
+                      stack := [newMatcher schema.top Option.none bag], pkgs := pkgs, conv := conv,
+                      bagSchema := bag.map fun _ => schema },
              stack := [], defs := [] }
 
 /-- a whole `load`, successful or not: when the overrides are refused nothing has happened; else the lines are read as
